@@ -146,7 +146,7 @@ fn main() {
       let c = if already == 0 { shrink(&c) } else { c };
       let min_out = run(&c.witness, c.drain);
       let witness = json!({
-        "seed": args.seed, "shard": args.shard, "case_index": n - 1,
+        "seed": args.seed, "shard": args.shard, "case_index": n - 1, "found_after_s": args.elapsed_s(),
         "minimal_program": c.witness.to_json(),
         "minimal_program_final_drain": c.drain,
         "minimal_program_observed": min_out.trace,
